@@ -230,13 +230,13 @@ def shaped(rng):
     return tame(" ".join(forms))
 
 
-M_PATTERNS = ["(%s a)", "(%s a b ...)", "(%s (a b) ...)", "(%s a lit b)", "(%s)", "(%s #(a ...))", "(%s a . b)", "(%s _ a)", "(%s a (b c ...) ...)", "(%s 1 a)"]
-M_TEMPLATES = ["(define a 1)", "(define-syntax a (syntax-rules () ((a) 1)))", "(define-syntax a (syntax-rules () ((a x) (%s x))))", "(begin a b ...)", "(lambda (a) b ...)",
+M_PATTERNS = ["(%s (a ...) (b ...))", "(%s (a ...) b ...)", "(%s (a b ...) (c d ...))", "(%s a)", "(%s a b ...)", "(%s (a b) ...)", "(%s a lit b)", "(%s)", "(%s #(a ...))", "(%s a . b)", "(%s _ a)", "(%s a (b c ...) ...)", "(%s 1 a)"]
+M_TEMPLATES = ["(list (cons a b) ...)", "(quote ((a . b) ...))", "(quote (a ... b ...))", "(quote ((b a) ...))", "(let ((a b) ...) (list a ...))", "(quote ((a d) ...))", "(define a 1)", "(define-syntax a (syntax-rules () ((a) 1)))", "(define-syntax a (syntax-rules () ((a x) (%s x))))", "(begin a b ...)", "(lambda (a) b ...)",
                "((lambda () (define a 1) a))", "(let ((a b) ...) a ...)", "(%s a)", "(%s a a)", "(set! a b)", "(quote (a b ...))", "(cond (a b) ...)", "(if a b ...)", "(a b ...)",
                "(%s2 a)", "a", "(a ... ...)", "(define (a . b) b)", "(define-syntax %s (syntax-rules () ((%s x) x)))", "(let* ((a 1) (b a)) (%s b))", "(define-library (a) (export b))",
                "(import (a))", "(define-syntax a b)", "(begin (define-syntax a (syntax-rules () ((a) 'inner))) (a))", "(lambda () (define-syntax a (syntax-rules () ((a) 2))) (a))",
                "(b ... a)", "#(a b ...)", "(quote a)", "(vector a b ...)", "(case a ((b ...) 1) (else 2))", "(and a b ...)", "(when a b ...)", "(define a (lambda a a))"]
-M_USES = ["(%s x)", "(%s foo 1 2)", "(%s (p q) (r s))", "(%s)", "(%s #(1 2))", "(%s foo)", "(foo)", "foo", "(x)", "(%s (%s foo))", "(%s lit lit lit)", "(%s foo lit 3)", "(%s 1 foo)",
+M_USES = ["(%s (1 2 3) (4 5))", "(%s (1) (2 3 4))", "(%s (1 2) 3 4 5)", "(%s () (1))", "(%s (1 2 3) 4)", "(%s (x y) (1 2))", "(%s x)", "(%s foo 1 2)", "(%s (p q) (r s))", "(%s)", "(%s #(1 2))", "(%s foo)", "(foo)", "foo", "(x)", "(%s (%s foo))", "(%s lit lit lit)", "(%s foo lit 3)", "(%s 1 foo)",
           "(%s foo . bar)", "(%s (a b c) (d))", "(define z (%s foo))", "((lambda () (%s foo)))", "(%s2 foo)", "(%s %s)", "(%s 'foo)"]
 
 
@@ -254,4 +254,77 @@ def macro_soup(rng):
         forms.append("(define-syntax %s (syntax-rules (lit) %s))" % (nm, " ".join(rules)))
     for _ in range(rng.randint(1, 5)):
         forms.append(rng.choice(M_USES).replace("%s2", name + "2").replace("%s", name))
+    return tame(" ".join(forms))
+
+
+# ------------------------------------------------------------------ random syntax-rules macros (patterns, templates and uses all random)
+def _mf_pattern(rng, depth, vars_):
+    """random pattern text; ellipses may follow anything, more than once, and not only at the end"""
+    n = rng.randint(0, 4)
+    items = []
+    for _ in range(n):
+        c = rng.random()
+        if depth <= 0 or c < 0.55:
+            v = rng.choice(["a", "b", "c", "d", "a", "b", "_", "lit", "1", "#t", "\"s\""])
+            if v in "abcd":
+                vars_.append(v)
+            items.append(v)
+        elif c < 0.85:
+            items.append(_mf_pattern(rng, depth - 1, vars_))
+        else:
+            items.append("#" + _mf_pattern(rng, depth - 1, vars_))
+        if rng.random() < 0.3:
+            items.append("...")
+    if items and rng.random() < 0.06:
+        items.insert(-1, ".")
+    return "(" + " ".join(items) + ")"
+
+
+def _mf_template(rng, depth, vars_):
+    n = rng.randint(0, 4)
+    items = []
+    for _ in range(n):
+        c = rng.random()
+        if depth <= 0 or c < 0.5:
+            items.append(rng.choice((vars_ or ["a"]) * 3 + ["a", "b", "x", "list", "cons", "quote", "1", "'k", "lambda", "define", "let", "if"]))
+        elif c < 0.9:
+            items.append(_mf_template(rng, depth - 1, vars_))
+        else:
+            items.append("#" + _mf_template(rng, depth - 1, vars_))
+        if rng.random() < 0.3:
+            items.append("...")
+            if rng.random() < 0.1:
+                items.append("...")
+    if len(items) >= 2 and rng.random() < 0.08:
+        items.insert(-1, ".")
+    return "(" + " ".join(items) + ")"
+
+
+def _mf_datum(rng, depth):
+    if depth <= 0 or rng.random() < 0.5:
+        return rng.choice(["1", "2", "3", "x", "lit", "#t", "\"s\"", "()", "'q"])
+    n = rng.choice([0, 1, 2, 2, 3, 3, 4, 5])
+    body = " ".join(_mf_datum(rng, depth - 1) for _ in range(n))
+    if n >= 2 and rng.random() < 0.06:
+        parts = body.split(" ")
+        body = " ".join(parts[:-1]) + " . " + parts[-1]
+    return ("#(" if rng.random() < 0.15 else "(") + body + ")"
+
+
+def macro_fuzz(rng):
+    """a macro with random rules (several ellipses per pattern, ellipsis variables of different patterns mixed under one template
+    ellipsis, wrong ellipsis depth, dotted forms) and random uses with sub-lists of unequal lengths"""
+    nm = rng.choice(["mz", "pair-up", "zip"])
+    rules = []
+    for _ in range(rng.randint(1, 3)):
+        vars_ = []
+        p = _mf_pattern(rng, rng.randint(1, 2), vars_)
+        p = "(" + nm + (" " + p[1:] if len(p) > 2 else ")")
+        t = _mf_template(rng, rng.randint(1, 3), vars_)
+        if rng.random() < 0.6:
+            t = "(quote %s)" % t
+        rules.append("(%s %s)" % (p, t))
+    forms = ["(define-syntax %s (syntax-rules (lit) %s))" % (nm, " ".join(rules))]
+    for _ in range(rng.randint(1, 6)):
+        forms.append("(%s %s)" % (nm, " ".join(_mf_datum(rng, 2) for _ in range(rng.randint(0, 4)))))
     return tame(" ".join(forms))
